@@ -16,7 +16,7 @@ import c06_impl as ci
 import c06_coq
 
 MEAN_FAM = ("s.mean", "es.mean")
-VAR_FAM = ("es.var0", "es.var1", "es.std1")
+VAR_FAM = ("es.var0", "es.var1", "es.std1", "es.std0")
 GROUPED = [a for a in ci.AGG_IDS if a.startswith(("gc.", "gs.", "vc."))]
 REDUCTIONS = [a for a in ci.AGG_IDS if a not in GROUPED]
 
